@@ -22,7 +22,7 @@ ASSUMPTIONS = ["start_pos is legal: 0, or coords[start_pos] <= coord (asserted b
                "only the listed accessors run, so no handle is ever detached by a removal"]
 
 KINDS = ["read", "read", "read_prefix", "read_noalloc", "ref", "ref", "ref", "handle", "handle", "position",
-         "positionRef", "onecoord", "onecoord", "assign_prefix"]
+         "positionRef", "onecoord", "onecoord", "assign_prefix", "elem_assign"]
 
 
 @st.composite
@@ -214,6 +214,20 @@ def check(case, rec):
                 written.add(pt + q)
             handles[:] = [h for h in handles if h[0][:n] != pt]     # handles into the replaced sub-tree are gone
             rec.cls("assign-nonempty", bool(src_cont))
+        elif k == "elem_assign":
+            # assignment with a whole element on both sides (taken out of leaf fibers by position): the
+            # destination point takes the source's VALUE; the two points stay independent afterwards
+            # (checked by the content comparison after every later step)
+            outcome, info = m.op_elem_assign(dict(o, other=[[o["sel"][2], o["val"]], [o["sel"][3], o["val"] + 1]]))
+            if outcome != "ok":
+                continue
+            pt, v = info["point"], info["value"]
+            if v == default:
+                mdl.pop(pt, None)
+            else:
+                mdl[pt] = v
+            written.add(pt)
+            nwrites += 1
         elif k in ("position", "positionRef"):
             f, lvl = m.target(o["path"])
             c = o["sel"][0] % m.shape[lvl]
